@@ -96,3 +96,32 @@ Proof.
   intros Hv l Hmax Hex. destruct (inv_xrun xs start _ Hv (inv_init iv rq start)) as (start' & Hi).
   exact (progress_of_shape VFull start' l cached o max eq_refl Hi Hmax Hex).
 Qed.
+
+(* ---------- the listing prefix of a partition matches no other partition's keys ---------- *)
+From KS Require Import lib.Strings.
+
+Lemma has_prefix_app_same a x y : has_prefix (a ++ x) (a ++ y) = has_prefix x y.
+Proof. induction a as [|c a IH]; cbn [app has_prefix]; [reflexivity|]. now rewrite Z.eqb_refl. Qed.
+
+Lemma has_prefix_true pre k : has_prefix pre k = true -> exists tail, k = pre ++ tail.
+Proof.
+  revert k; induction pre as [|x pre IH]; intros k H; [exists k; reflexivity|].
+  destruct k as [|y k]; cbn [has_prefix] in H; [discriminate|].
+  apply andb_true_iff in H as [E H]. apply Z.eqb_eq in E. subst y.
+  destruct (IH _ H) as (tail & ->). exists tail. reflexivity.
+Qed.
+
+Theorem listing_isolated ns topic p p' base :
+  has_prefix (part_prefix ns topic p) (seg_key ns topic p' base) = true -> p = p'.
+Proof.
+  unfold seg_key, part_prefix. intros H.
+  replace (ns ++ slash :: topic ++ slash :: dec p ++ [slash])
+    with ((ns ++ slash :: topic ++ [slash]) ++ dec p ++ [slash]) in H
+    by (repeat (first [rewrite <- app_assoc | progress cbn [app]]); reflexivity).
+  replace ((ns ++ slash :: topic ++ slash :: dec p' ++ [slash]) ++ [115; 101; 103; 109; 101; 110; 116; 45] ++ pad20 (dec base) ++ [46; 107; 102; 115])
+    with ((ns ++ slash :: topic ++ [slash]) ++ dec p' ++ slash :: ([115; 101; 103; 109; 101; 110; 116; 45] ++ pad20 (dec base) ++ [46; 107; 102; 115])) in H
+    by (repeat (first [rewrite <- app_assoc | progress cbn [app]]); reflexivity).
+  rewrite has_prefix_app_same in H. apply has_prefix_true in H as (tail & E).
+  rewrite <- app_assoc in E. cbn [app] in E. symmetry in E.
+  apply split_first_sep in E as [E _]; [now apply dec_inj| |]; apply dec_no_sep; reflexivity.
+Qed.
